@@ -1,5 +1,6 @@
 """Property registry: which rule functions decide which property, with the text that goes into the evidence."""
 from .rules import solver_rules as S
+from .rules import dd_rules as D
 
 COMMON_ASSUME = [
     'rustc MIR construction, name resolution and the fact extractor (engine/factsdrv) are trusted',
@@ -60,7 +61,17 @@ def c19(ctx):
     ctx.results[:] = [r for r in ctx.results if r['rule'].startswith('R19') or 'improve-only' in r['instance'] or '/strict' in r['instance'] or r['rule'] == 'ANCHOR']
 
 
+def cdd(ctx):
+    D.r_append(ctx)
+    D.r_branch_on(ctx)
+    D.r_compile(ctx)
+    D.r_squash(ctx)
+    D.r_restrict(ctx)
+    D.r_relax(ctx)
+
+
 PROPS = {
+    'CDD': dict(fn=cdd, explanation='dev: all diagram rules'),
     'C01': dict(fn=c01, explanation='static rules over rustc MIR (edge-cut reachability, must-pass-through, origin terms): prune polarity at the pop/enqueue sites, restricted->relaxed->enqueue protocol, Complete only on an empty fringe'),
     'C02': dict(fn=c02, explanation='static rules over rustc MIR: incumbent value and solution written together from the exact accessors of one diagram, improve-only guard, reported value = best_sol.map(|_| best_lb)'),
     'C03': dict(fn=c03, explanation='static rules over rustc MIR on ParallelSolver: C01 clauses, lock regions (no re-entrant acquisition, one acquisition per check-then-act), pop-time discard polarity, cache mark guarded'),
